@@ -52,6 +52,10 @@ type KnownFinding struct {
 
 var verifRoot = "/verif"
 
+// scratchRoot holds work/ and replays/; it is verifRoot unless --workdir moves it (selftest runs several checks of one
+// property side by side on different trees).
+var scratchRoot = ""
+
 func main() {
 	if len(os.Args) < 2 {
 		fmt.Println("usage: gocv check <prop> [--tier quick|thorough] | gocv baseline | gocv list")
@@ -217,6 +221,7 @@ func cmdCheck(argv []string) int {
 	repo := fs.String("repo", "/repo/src", "path of the Go module to verify")
 	verbose := fs.Bool("v", false, "verbose")
 	noEvidence := fs.Bool("no-evidence", false, "do not write the evidence file")
+	workdir := fs.String("workdir", "", "directory for work/ and replays/ (default: the verif root)")
 	allObls := fs.Bool("all", false, "keep every obligation of the verified functions, whatever property it is tagged with (debug aid)")
 	if len(argv) < 1 {
 		fmt.Println("usage: gocv check <prop>")
@@ -224,6 +229,10 @@ func cmdCheck(argv []string) int {
 	}
 	id := argv[0]
 	fs.Parse(argv[1:])
+	scratchRoot = verifRoot
+	if *workdir != "" {
+		scratchRoot = *workdir
+	}
 	if t := os.Getenv("VERIF_TIER"); t == "thorough" || t == "quick" {
 		// explicit flag wins; env only used when the flag was not given
 		given := false
@@ -355,7 +364,7 @@ func cmdCheck(argv []string) int {
 			obls = append(obls, ob)
 		}
 	}
-	scfg := &SolverCfg{Timeout: 10 * time.Second, WorkDir: filepath.Join(verifRoot, "work", "q", id), Parallel: 16}
+	scfg := &SolverCfg{Timeout: 10 * time.Second, WorkDir: filepath.Join(scratchRoot, "work", "q", id), Parallel: 16}
 	if *tier == "thorough" {
 		scfg.Timeout = 120 * time.Second
 		scfg.Cross = true
@@ -462,7 +471,7 @@ func cmdCheck(argv []string) int {
 		boundedEv = append(boundedEv, res)
 		if bad, _ := res["violated"].(bool); bad {
 			violations++
-			path := filepath.Join(verifRoot, "replays", id, "bounded_"+sanitize(bt.Run)+".json")
+			path := filepath.Join(scratchRoot, "replays", id, "bounded_"+sanitize(bt.Run)+".json")
 			os.MkdirAll(filepath.Dir(path), 0o755)
 			b, _ := json.MarshalIndent(res, "", " ")
 			os.WriteFile(path, b, 0o644)
@@ -609,7 +618,7 @@ func updateBaseline(id string, names []string) {
 }
 
 func writeReplay(id string, g *nameGroup, ex *Exec, why string) string {
-	dir := filepath.Join(verifRoot, "replays", id)
+	dir := filepath.Join(scratchRoot, "replays", id)
 	os.MkdirAll(dir, 0o755)
 	path := filepath.Join(dir, sanitize(g.Name)+".json")
 	rec := map[string]interface{}{
@@ -717,7 +726,7 @@ var boundedRe = regexp.MustCompile(`BOUNDED name=(\S+) cases=(\d+) mismatches=(\
 
 func runBounded(repo string, bt BoundedTest, id string) map[string]interface{} {
 	res := map[string]interface{}{"test": bt.Run, "package": bt.Pkg, "source": bt.File, "what": bt.What, "label": "bounded (not counted as discharged)"}
-	work := filepath.Join(verifRoot, "work", "bounded", id)
+	work := filepath.Join(scratchRoot, "work", "bounded", id)
 	os.MkdirAll(work, 0o755)
 	src := filepath.Join(verifRoot, bt.File)
 	ov := map[string]map[string]string{"Replace": {filepath.Join(repo, bt.Pkg, "zz_gocv_bounded_test.go"): src}}
